@@ -42,6 +42,7 @@ def to_json_schema_7(schema: JsonSchema) -> Dict[str, Any]:
 
 OPEN_API_3_0_UNSUPPORTED = [
     "dependentRequired",
+    "propertyNames",
     "unevaluatedProperties",
     "additionalItems",
 ]
